@@ -88,6 +88,9 @@ def main(tier, replay, t0):
                                           rp))
                     continue
                 b = bytes.fromhex(e["hex"])
+                vb = W.ValueBuilder(spec.structs, "glam", "m", runtime_len=e["n_runtime"])
+                vb.build(W.ST(s), 0)
+                e["components"] = [[o, k, v] for (o, k, v) in vb.components]
                 lay = W.struct_layout(sd, spec.structs, runtime_len=max(e["n_runtime"], 1))
                 want_len = lay["size"]
                 if len(sd.members) >= 2:
